@@ -1,9 +1,113 @@
 import Driver.Util
-/-! driver ops of C12 (prefix `c12.`); filled in by the C12 work -/
+import Model.Writers
+/-!
+driver ops of C12 (prefix `c12.`)
+
+`c12.run <roles> [@<schedule, ignored>] <rec> <rec> …`
+* roles: comma separated, thread id = position: `wca` writer, body appends its id, commits; `wcr` writer, body resets the
+  content to `[id]`, commits; `wra` writer, appends, rolls back; `wcn` writer, changes nothing, "commits" (the code takes
+  the rollback path); `rd` reader.
+* rec: `<tid>:<label>`: one record per *visible* step of the implementation, in execution order
+  (`acq rel new.E app.E wait.E set.E pop.E txn+ txn- wev- ver nod rd+ rd- ret rret seen`), plus `<tid>:blk`
+  (the thread is blocked in `acquire`/`wait`) and `0:fin`.
+  The silent steps of a thread (`tau`) are run right before its next visible one.
+* output: the abstract shared state after every record, or `!<index>:<reason>` at the first record that is not an
+  enabled model step with that label.
+-/
 namespace Driver
-open Model
+open Model Model.Writers
+
+abbrev WLabel := Model.Writers.Label
+
+def showList (xs : List Nat) : String := if xs.isEmpty then "-" else ".".intercalate (xs.map toString)
+def showOpt (x : Option Nat) : String := match x with | some v => toString v | none => "-"
+
+def insSorted (x : Nat) : List Nat → List Nat
+  | [] => [x]
+  | y :: ys => if x < y then x :: y :: ys else if x = y then y :: ys else y :: insSorted x ys
+def sortU (xs : List Nat) : List Nat := xs.foldl (fun acc x => insSorted x acc) []
+
+def showState (s : State) : String :=
+  "L" ++ showOpt s.lock ++ "T" ++ showOpt s.writeTxn ++ "E" ++ showOpt s.writeEvent ++ "W" ++ showList s.waiters
+    ++ "S" ++ showList (sortU s.evSet) ++ "V" ++ toString s.lastId ++ ":" ++ showList s.lastVersion.2
+    ++ "N" ++ showList s.nodes ++ "R" ++ showList (sortU s.readers)
+
+def parseRole (s : String) : Option (Role × Nat) :=
+  if s = "wca" then some (.writer true, 0) else if s = "wcr" then some (.writer true, 1)
+  else if s = "wra" then some (.writer false, 0) else if s = "wcn" then some (.writer false, 2)
+  else if s = "rd" then some (.reader, 2) else none
+
+def mkCfg (rs : List (Role × Nat)) : Cfg :=
+  { role := fun t => ((rs[t]?).map (·.1)).getD .reader
+    body := fun t c => match (rs[t]?).map (·.2) with
+      | some 0 => c ++ [t]
+      | some 1 => [t]
+      | _ => c }
+
+def parseLabel (s : String) : Option WLabel :=
+  match splitOnChar s '.' with
+  | ["acq"] => some .acq | ["rel"] => some .rel
+  | ["txn+"] => some .txnOpen | ["txn-"] => some .txnClose | ["wev-"] => some .wevClear
+  | ["ver"] => some .ver | ["nod"] => some .nod | ["rd+"] => some .rdAdd | ["rd-"] => some .rdDel
+  | ["ret"] => some .ret | ["rret"] => some .rret | ["seen"] => some .seen
+  | ["new", e] => e.toNat?.map Writers.Label.new | ["app", e] => e.toNat?.map Writers.Label.app | ["wait", e] => e.toNat?.map Writers.Label.wait
+  | ["set", e] => e.toNat?.map Writers.Label.set | ["pop", e] => e.toNat?.map Writers.Label.pop
+  | _ => none
+
+def showLabel : WLabel → String
+  | .tau => "tau" | .acq => "acq" | .rel => "rel" | .new e => s!"new.{e}" | .app e => s!"app.{e}"
+  | .wait e => s!"wait.{e}" | .set e => s!"set.{e}" | .pop e => s!"pop.{e}" | .txnOpen => "txn+"
+  | .txnClose => "txn-" | .wevClear => "wev-" | .ver => "ver" | .nod => "nod" | .rdAdd => "rd+" | .rdDel => "rd-"
+  | .ret => "ret" | .rret => "rret" | .seen => "seen" | .stuck => "stuck"
+
+def localSuffix (s : State) (t : Tid) : WLabel → String
+  | .ret => "/" ++ toString (s.loc t).vid ++ ":" ++ showList (s.loc t).snap
+  | .rret => "/" ++ toString (s.loc t).rver.1 ++ ":" ++ showList (s.loc t).rver.2
+  | .seen => "/" ++ showList (s.loc t).seen
+  | _ => ""
+
+def allDone (c : Cfg) (s : State) (n : Nat) : Bool :=
+  (List.range n).all fun t => decide (((advance c 8 s t).loc t).pc = Pc.done)
+
+def runRecords (c : Cfg) (n : Nat) : Nat → State → List String → List String → List String
+  | _, _, [], acc => acc.reverse
+  | i, s, r :: rest, acc =>
+    let bad (why : String) := (s!"!{i}:{why}" :: acc).reverse
+    match splitOnChar r ':' with
+    | [ts, ls] =>
+      match ts.toNat? with
+      | none => bad "syntax"
+      | some t =>
+        if ls = "fin" then
+          let out := "A" ++ showList s.admitted ++ "C" ++ showList s.committed ++ "D" ++ (if allDone c s n then "1" else "0")
+          runRecords c n (i + 1) s rest (out :: acc)
+        else if t ≥ n then bad "tid"
+        else
+          let s1 := advance c 8 s t
+          if ls = "blk" then
+            match step c s1 t with
+            | none =>
+              if (match label c s1 t with | .acq => true | .wait _ => true | _ => false) then
+                runRecords c n (i + 1) s1 rest (showState s1 :: acc)
+              else bad s!"blocked-but-model-at-{showLabel (label c s1 t)}"
+            | some _ => bad s!"blocked-but-model-enabled-{showLabel (label c s1 t)}"
+          else
+            match parseLabel ls with
+            | none => bad s!"unknown-label-{ls}"
+            | some lab =>
+              if label c s1 t ≠ lab then bad s!"model-expects-{showLabel (label c s1 t)}"
+              else match step c s1 t with
+                | none => bad s!"model-disabled-{showLabel lab}"
+                | some s2 => runRecords c n (i + 1) s2 rest ((showState s2 ++ localSuffix s2 t lab) :: acc)
+    | _ => bad "syntax"
 
 def handleC12 : List String → Option String
+  | "c12.run" :: roles :: recs => do
+    -- a token `@…` carries the schedule for replays and is not part of the trace
+    let recs := recs.filter (fun r => ¬ r.startsWith "@")
+    let rs ← (splitOnChar roles ',').mapM parseRole
+    let c := mkCfg rs
+    some (" ".intercalate (runRecords c rs.length 0 init recs []))
   | _ => none
 
 end Driver
